@@ -7,6 +7,7 @@ package main
 // divergence fails with the recorded signature.
 
 import (
+	"crypto/sha1"
 	"encoding/hex"
 	"encoding/json"
 	"fmt"
@@ -75,6 +76,10 @@ func sqlParseScriptLine(l string) (sess string, q sqlText, recorded string, comm
 	}
 	l = strings.TrimSuffix(strings.TrimSpace(l), "(ExecPreparedStmts)")
 	l = strings.TrimSpace(l)
+	if strings.HasSuffix(l, "(Query)") { // executed through Engine.Query (autocommit = read-only transaction)
+		l = strings.TrimSpace(strings.TrimSuffix(l, "(Query)"))
+		q.ViaQuery = true
+	}
 	if i := strings.Index(l, "   -- @"); i >= 0 {
 		q.Params = map[string]interface{}{}
 		for _, pt := range strings.Fields(l[i+6:]) {
@@ -93,6 +98,15 @@ func sqlParseScriptLine(l string) (sess string, q sqlText, recorded string, comm
 	}
 	q.SQL = l
 	return sess, q, recorded, false
+}
+
+// recorded outcome of a script line executed through Engine.Query
+func sqlQueryOutcome(q sqlQRes) string {
+	if q.Err != "" {
+		return "ERR " + q.Err
+	}
+	h := sha1.Sum([]byte(q.bag()))
+	return fmt.Sprintf("ok rows=%d #%s", len(q.Rows), hex.EncodeToString(h[:4]))
 }
 
 func sqlReplay(r *hx.Result, path string) error {
@@ -129,9 +143,19 @@ func sqlReplay(r *hx.Result, path string) error {
 			}
 			continue
 		}
-		res := sqlExec(env.eng, txs[sess], q)
+		var res sqlXRes
+		got := ""
+		if q.ViaQuery {
+			qr := sqlQuery(env.eng, txs[sess], q)
+			res = sqlXRes{Err: qr.Err, Tx: txs[sess]}
+			got = sqlQueryOutcome(qr) // row count and fingerprint: a query that succeeds with other rows has diverged
+		} else {
+			res = sqlExec(env.eng, txs[sess], q)
+		}
 		txs[sess] = res.Tx
-		got := "ok"
+		if got == "" {
+			got = "ok"
+		}
 		if res.Err != "" {
 			got = "ERR " + res.Err
 		}
